@@ -5,8 +5,8 @@ From V Require Import Common.Str Regex.Reader Gen.UnicodeProps Regex.Validator R
 Import ListNotations RecordSetNotations.
 
 (* the validator is at the input suffix l, in mode u (validate_pattern sets strict = u_flag = u) *)
-Definition at_ (u : bool) (s : vst) (l : list N) : Prop :=
-  skipn (pos s) (units (rd s)) = l /\ strict s = u /\ uflag s = u /\ nflag s = u.
+Definition at_ (u : bool) (np : N) (s : vst) (l : list N) : Prop :=
+  skipn (pos s) (units (rd s)) = l /\ strict s = u /\ uflag s = u /\ nflag s = u /\ ncap s = np.
 (* the part of in_fragment the simulation depends on *)
 Definition frag (u : bool) (l : list N) : Prop := scan u false l = true.
 (* a fact kept aside in its original form *)
@@ -14,12 +14,12 @@ Definition keep (P : Prop) : Prop := P.
 Definition cfgeq (s t : vst) : Prop :=
   units (rd t) = units (rd s) /\ strict t = strict s /\ uflag t = uflag s /\ nflag t = nflag s /\
   ncap t = ncap s /\ gnames t = gnames s /\ brnames t = brnames s.
-Definition Post {A} (u : bool) (s : vst) (_ : A) (t : vst) (l' : list N) : Prop :=
-  at_ u t l' /\ frag u l' /\ cfgeq s t.
+Definition Post {A} (u : bool) (np : N) (s : vst) (_ : A) (t : vst) (l' : list N) : Prop :=
+  at_ u np t l' /\ frag u l' /\ cfgeq s t.
 (* the validator is at the unit after a backslash: the escaped state of the scan *)
 Definition efrag (u : bool) (l : list N) : Prop := scan u true l = true.
-Definition PostE (u : bool) (s : vst) (b : bool) (t : vst) (l' : list N) : Prop :=
-  at_ u t l' /\ cfgeq s t /\ (b = true -> frag u l').
+Definition PostE (u : bool) (np : N) (s : vst) (b : bool) (t : vst) (l' : list N) : Prop :=
+  at_ u np t l' /\ cfgeq s t /\ (b = true -> frag u l').
 Definition SimR {A} (P : A -> vst -> list N -> Prop) (r : R A) (x : SR A) : Prop :=
   match r, x with
   | Ok a t, SOk a' l' => a = a' /\ P a t l'
@@ -89,7 +89,7 @@ Proof.
     intros H. exfalso. exact (sp_group_body_not_false _ _ _ H).
   - destruct (is_eq_or_bang c2); [|intros [= <-]; reflexivity]. intros H. exfalso. exact (sp_group_body_not_false _ _ _ H).
 Qed.
-Lemma sp_escape_not_bs u c r : (c =? 92)%N = false -> sp_escape u (c :: r) = SOk false (c :: r).
+Lemma sp_escape_not_bs u np c r : (c =? 92)%N = false -> sp_escape u np (c :: r) = SOk false (c :: r).
 Proof. intros E. cbn [sp_escape]. unfold g_backslash. destruct r; rewrite E; reflexivity. Qed.
 Lemma syntax_character_is_syntax c : syntax_character c = is_syntax c.
 Proof. reflexivity. Qed.
@@ -109,11 +109,15 @@ Lemma sp_hex_esc_false_eq u l r : sp_hex_esc u l = SOk false r -> r = l.
 Proof. intros H. apply sp_hex_esc_sound in H. destruct H as [[H _]|[_ [H _]]]; [discriminate|exact H]. Qed.
 Lemma sp_unicode_esc_false_eq u l r : sp_unicode_esc u l = SOk false r -> r = l.
 Proof. intros H. apply sp_unicode_esc_sound in H. destruct H as [[H _]|[_ [H _]]]; [discriminate|exact H]. Qed.
-Lemma sp_atom_escape_false_eq u l r : sp_atom_escape u l = SOk false r -> r = l.
+Lemma sp_atom_escape_false_eq u np l r : sp_atom_escape u np l = SOk false r -> r = l.
 Proof. intros H. apply sp_atom_escape_sound in H. destruct H as [[H _]|[_ H]]; [discriminate|exact H]. Qed.
-Lemma sp_escape_false_eq u l r : sp_escape u l = SOk false r -> r = l.
+Lemma sp_escape_false_eq u np l r : sp_escape u np l = SOk false r -> r = l.
 Proof. intros H. apply sp_escape_sound in H. destruct H as [[H _]|[_ H]]; [discriminate|exact H]. Qed.
-(* consume_atom_escape in two pieces *)
+Lemma sp_backref_false_eq u np l r : sp_backref u np l = SOk false r -> r = l.
+Proof. intros H. apply sp_backref_sound in H. destruct H as [[H _]|[_ [H _]]]; [discriminate|exact H]. Qed.
+Lemma sp_legacy_octal_false_eq l r : sp_legacy_octal l = (false, r) -> r = l.
+Proof. intros H. apply sp_legacy_octal_false in H. apply H. Qed.
+(* consume_atom_escape in pieces *)
 Definition sp_cce (l : list N) : SR bool :=
   match l with c :: r => if character_class_escape c then SOk true r else SOk false l | [] => SOk false l end.
 Definition sp_ce (u : bool) (l : list N) : SR bool :=
@@ -129,7 +133,9 @@ Definition sp_ce (u : bool) (l : list N) : SR bool :=
         | SOk false _ =>
             match sp_unicode_esc u l with
             | SOk true r' => SOk true r'
-            | SOk false _ => if identity_escape u c && negb (c =? 48) then SOk true r else SOk false l
+            | SOk false _ =>
+                let '(b, r') := if u then (false, l) else sp_legacy_octal l in
+                if b then SOk true r' else if identity_escape u c then SOk true r else SOk false l
             | SErr => SErr
             | SFuel => SFuel
             end
@@ -137,13 +143,19 @@ Definition sp_ce (u : bool) (l : list N) : SR bool :=
         | SFuel => SFuel
         end
   end.
-Lemma sp_atom_escape_split u l : sp_atom_escape u l =
-  match sp_cce l with
+Lemma sp_atom_escape_split u np l : sp_atom_escape u np l =
+  match sp_backref u np l with
   | SOk true r' => SOk true r'
   | SOk false _ =>
-      match sp_ce u l with
+      match sp_cce l with
       | SOk true r' => SOk true r'
-      | SOk false _ => if u then SErr else SOk false l
+      | SOk false _ =>
+          match sp_ce u l with
+          | SOk true r' => SOk true r'
+          | SOk false _ => if u then SErr else SOk false l
+          | SErr => SErr
+          | SFuel => SFuel
+          end
       | SErr => SErr
       | SFuel => SFuel
       end
@@ -151,12 +163,14 @@ Lemma sp_atom_escape_split u l : sp_atom_escape u l =
   | SFuel => SFuel
   end.
 Proof.
-  destruct l as [|c r]; [reflexivity|]. cbn [sp_atom_escape sp_cce sp_ce].
+  unfold sp_atom_escape. destruct (sp_backref u np l) as [[|] r0| |]; try reflexivity.
+  destruct l as [|c r]; [reflexivity|]. cbn [sp_cce sp_ce].
   destruct (character_class_escape c); [reflexivity|]. destruct (control_escape c); [reflexivity|].
   destruct ((c =? 99) && starts_letter r); [reflexivity|]. destruct ((c =? 48) && negb (starts_digit r)); [reflexivity|].
   destruct (sp_hex_esc u (c :: r)) as [[|] r1| |]; try reflexivity.
   destruct (sp_unicode_esc u (c :: r)) as [[|] r2| |]; try reflexivity.
-  destruct (identity_escape u c && negb (c =? 48)); reflexivity.
+  destruct (if u then (false, c :: r) else sp_legacy_octal (c :: r)) as [[|] r3]; [reflexivity|].
+  destruct (identity_escape u c); reflexivity.
 Qed.
 Lemma sp_cce_false_eq l r : sp_cce l = SOk false r -> r = l.
 Proof. destruct l as [|c l']; cbn [sp_cce]; [intros [= <-]; reflexivity|]. destruct (character_class_escape c); [discriminate|intros [= <-]; reflexivity]. Qed.
@@ -167,11 +181,13 @@ Proof.
   destruct ((c =? 48) && negb (starts_digit l'))%bool; [discriminate|].
   destruct (sp_hex_esc u (c :: l')) as [[|] r1| |]; try discriminate.
   destruct (sp_unicode_esc u (c :: l')) as [[|] r2| |]; try discriminate.
-  destruct (identity_escape u c && negb (c =? 48))%bool; [discriminate|intros [= <-]; reflexivity].
+  destruct (if u then (false, c :: l') else sp_legacy_octal (c :: l')) as [[|] r3]; [discriminate|].
+  destruct (identity_escape u c)%bool; [discriminate|intros [= <-]; reflexivity].
 Qed.
-Lemma sp_escape_true_bs l r : sp_escape true (92 :: l) = SOk false r -> False.
+Lemma sp_escape_true_bs np l r : sp_escape true np (92 :: l) = SOk false r -> False.
 Proof.
   cbn [sp_escape N.eqb Pos.eqb g_backslash]. rewrite sp_atom_escape_split.
+  destruct (sp_backref true np l) as [[|] r0| |]; try discriminate.
   destruct (sp_cce l) as [[|] r1| |]; try discriminate. destruct (sp_ce true l) as [[|] r2| |]; discriminate.
 Qed.
 Lemma sp_brq_nil u ne : sp_brq u ne [] = SOk false [].
@@ -189,9 +205,9 @@ Ltac prim :=
   unfold r_advance, r_rewind, r_remaining in *; unfold set in *; proj.
 Ltac unfold_hyps :=
   repeat match goal with
-         | H : Post _ _ _ _ _ |- _ => unfold Post in H
-         | H : PostE _ _ _ _ _ |- _ => unfold PostE in H
-         | H : at_ _ _ _ |- _ => unfold at_, pos in H
+         | H : Post _ _ _ _ _ _ |- _ => unfold Post in H
+         | H : PostE _ _ _ _ _ _ |- _ => unfold PostE in H
+         | H : at_ _ _ _ _ |- _ => unfold at_, pos in H
          | H : cfgeq _ _ |- _ => unfold cfgeq in H
          | H : _ /\ _ |- _ => destruct H
          end.
@@ -250,12 +266,9 @@ Ltac absurd_hyp :=
       unfold local_ok, is_eq_or_bang in H; unfold_chars; cbn [N.eqb Pos.eqb andb orb] in H;
       saturate H; cbn [orb andb negb] in H; discriminate H
   | H : allowed_after_backslash _ _ _ = true |- _ =>
-      unfold allowed_after_backslash, nonzero_digit, starts_digit in H; change decimal_digit with is_digit in H;
-      cbn [existsb N.eqb Pos.eqb N.leb N.compare Pos.compare Pos.compare_cont] in H; saturate H;
+      unfold allowed_after_backslash, non_zero_digit in H;
+      cbn [existsb N.eqb Pos.eqb N.leb N.compare Pos.compare Pos.compare_cont andb orb negb] in H; saturate H;
       cbn [orb andb negb N.eqb Pos.eqb] in H; discriminate H
-  | H : allowed_after_backslash ?u ?c ?r = true |- _ =>
-      lazymatch u with true => idtac | false => idtac end; lazymatch r with [] => idtac | _ :: _ => idtac end;
-      vm_compute in H; discriminate H
   | H : plain_char _ = true |- _ => vm_compute in H; discriminate H
   | H : assertion_prefix _ = false |- _ => vm_compute in H; discriminate H
   | H : assertion_prefix _ = false |- _ =>
@@ -266,6 +279,7 @@ Ltac absurd_hyp :=
 Ltac small_fact t :=
   lazymatch t with
   | context [scan] => fail | context [local_ok] => fail | context [braces_small] => fail
+  | context [allowed_after_backslash] => fail | context [bound_limit] => fail
   | context [sp_braced] => fail | context [span_digits] => fail | context [dec_value] => fail
   | _ => idtac
   end.
@@ -297,9 +311,11 @@ Ltac cleanup :=
          | H : sp_codepoint ?l = SOk false ?r |- _ => is_var r; pose proof (sp_codepoint_false_eq _ _ H); subst r
          | H : sp_hex_esc _ ?l = SOk false ?r |- _ => is_var r; pose proof (sp_hex_esc_false_eq _ _ _ H); subst r
          | H : sp_unicode_esc _ ?l = SOk false ?r |- _ => is_var r; pose proof (sp_unicode_esc_false_eq _ _ _ H); subst r
-         | H : sp_atom_escape _ ?l = SOk false ?r |- _ => is_var r; pose proof (sp_atom_escape_false_eq _ _ _ H); subst r
-         | H : sp_escape true (92%N :: _) = SOk false _ |- _ => exfalso; exact (sp_escape_true_bs _ _ H)
-         | H : sp_escape _ ?l = SOk false ?r |- _ => is_var r; pose proof (sp_escape_false_eq _ _ _ H); subst r
+         | H : sp_atom_escape _ _ ?l = SOk false ?r |- _ => is_var r; pose proof (sp_atom_escape_false_eq _ _ _ _ H); subst r
+         | H : sp_backref _ _ ?l = SOk false ?r |- _ => is_var r; pose proof (sp_backref_false_eq _ _ _ _ H); subst r
+         | H : sp_legacy_octal ?l = (false, ?r) |- _ => is_var r; pose proof (sp_legacy_octal_false_eq _ _ H); subst r
+         | H : sp_escape true _ (92%N :: _) = SOk false _ |- _ => exfalso; exact (sp_escape_true_bs _ _ _ H)
+         | H : sp_escape _ _ ?l = SOk false ?r |- _ => is_var r; pose proof (sp_escape_false_eq _ _ _ _ H); subst r
          | H : sp_cce ?l = SOk false ?r |- _ => is_var r; pose proof (sp_cce_false_eq _ _ H); subst r
          | H : sp_ce _ ?l = SOk false ?r |- _ => is_var r; pose proof (sp_ce_false_eq _ _ _ H); subst r
          | H : sp_assertion _ ?l = SOk false ?r |- _ => is_var r; pose proof (sp_assertion_false_eq _ _ _ H); subst r
@@ -360,7 +376,7 @@ Ltac split_mem :=
 Ltac finish :=
   simp; repeat (case_scrut; proj; cleanup; try solve [exfalso; absurd_hyp]; simp);
   try (split_mem; try solve [exfalso; first [absurd_hyp | absurd_closed]]);
-  unfold SimP; cbn [SimR fst snd]; unfold Post, PostE, at_, cfgeq, pos, frag; proj; rewrite ?quantifiable_true;
+  unfold SimP, SimB; cbn [SimR fst snd]; unfold Post, PostE, at_, cfgeq, pos, frag; proj; rewrite ?quantifiable_true;
   repeat match goal with |- _ /\ _ => split end;
   try reflexivity; try assumption; try congruence;
   try solve [unfold keep in *; assumption];
@@ -370,8 +386,8 @@ Ltac finish :=
              repeat match goal with E : ?c <> 92%N |- _ => rewrite (proj2 (N.eqb_neq c 92) E) end;
              repeat (apply andb_true_iff; split); assumption]; auto.
 
-#[global] Hint Extern 1 (at_ _ _ _) =>
-  solve [unfold at_, pos; proj; split; [eassumption | split; [|split]; first [reflexivity | eassumption | congruence]]] : sim.
+#[global] Hint Extern 1 (at_ _ _ _ _) =>
+  solve [unfold at_, pos; proj; split; [eassumption | split; [|split; [|split]]; first [reflexivity | eassumption | congruence]]] : sim.
 #[global] Hint Extern 1 (frag _ _) => solve [unfold frag, keep in *; first [eassumption | reflexivity]] : sim.
 #[global] Hint Extern 1 (efrag _ _) =>
   solve [unfold efrag, keep in *; first [eassumption | cbn [scan]; apply andb_true_iff; split; first [eassumption | reflexivity]]] : sim.
@@ -396,7 +412,7 @@ Ltac use_lemma c :=
   first [ eassert (L : SimR _ c _) by (eauto with sim) | eassert (L : SimP _ c _) by (eauto with sim)
         | eassert (L : SimB _ c _) by (eauto with sim) ];
   try (rewrite sp_escape_not_bs in L by (first [assumption | reflexivity]));
-  try (change (sp_escape ?uu []) with (@SOk bool false []) in L);
+  try (change (sp_escape ?uu ?nn []) with (@SOk bool false []) in L);
   try (rewrite sp_brq_nil in L);
   (* a backslash: look at the escaped unit before comparing the outcomes *)
   repeat match type of L with
@@ -426,6 +442,12 @@ Ltac step :=
               | _ => split_test c
               end ]
   | |- SimP _ ?l _ => let c := head_scrut l in
+      first [ is_call c; use_lemma c
+            | lazymatch c with
+              | nth_error ?m _ => is_var m; destruct m
+              | _ => split_test c
+              end ]
+  | |- SimB _ ?l _ => let c := head_scrut l in
       first [ is_call c; use_lemma c
             | lazymatch c with
               | nth_error ?m _ => is_var m; destruct m
@@ -506,8 +528,8 @@ Proof. destruct l; [reflexivity|discriminate]. Qed.
 Lemma min_small n : (n <? bound_limit) = true -> Z.min i64max (Z.of_N n) = Z.of_N n.
 Proof. unfold bound_limit, i64max. intros H. apply N.ltb_lt in H. lia. Qed.
 
-Lemma eat_braced_quantifier_sim u ne s l : at_ u s l -> frag u l ->
-  SimR (Post u s) (eat_braced_quantifier ne s) (sp_brq u ne l).
+Lemma eat_braced_quantifier_sim u ne np s l : at_ u np s l -> frag u l ->
+  SimR (Post u np s) (eat_braced_quantifier ne s) (sp_brq u ne l).
 Proof.
   intros Ha Hf. unfold frag in Hf. unfold_hyps. destruct_states. cleanup.
   unfold eat_braced_quantifier, sp_brq. unfold bind. prim.
@@ -564,8 +586,8 @@ Proof.
 Qed.
 
 #[local] Hint Resolve eat_braced_quantifier_sim : sim.
-Lemma consume_quantifier_sim u nc s l : at_ u s l -> frag u l ->
-  SimR (Post u s) (consume_quantifier nc s) (sp_quant u nc l).
+Lemma consume_quantifier_sim u nc np s l : at_ u np s l -> frag u l ->
+  SimR (Post u np s) (consume_quantifier nc s) (sp_quant u nc l).
 Proof. start consume_quantifier. unfold sp_quant, is_quant_char, skip_lazy. go. Qed.
 #[local] Hint Resolve consume_quantifier_sim : sim.
 
@@ -622,8 +644,8 @@ Proof.
   apply fixed_hex_eq. exact Hl.
 Qed.
 
-Lemma eat_fixed_hex_digits_sim n u s l : at_ u s l -> frag u l ->
-  SimB (Post u s) (eat_fixed_hex_digits n s) (sp_fixed_hex n l).
+Lemma eat_fixed_hex_digits_sim n u np s l : at_ u np s l -> frag u l ->
+  SimB (Post u np s) (eat_fixed_hex_digits n s) (sp_fixed_hex n l).
 Proof.
   intros Ha Hf. unfold frag in Hf. unfold_hyps. destruct_states. cleanup.
   rewrite (eat_fixed_hex_digits_eq _ _ _ _ _ _ _ _ _ _ _ _ _ _ _ n l H). unfold sp_fixed_hex.
@@ -652,8 +674,8 @@ Qed.
 Ltac finishB :=
   unfold SimB; cbn [fst snd]; split; [reflexivity|]; unfold Post, at_, cfgeq, frag, pos; proj;
   repeat split; try reflexivity; try assumption.
-Lemma eat_surrogate_pair_escape_sim u s l : at_ u s l -> frag u l ->
-  SimB (Post u s) (eat_surrogate_pair_escape s) (sp_surrogate_pair l).
+Lemma eat_surrogate_pair_escape_sim u np s l : at_ u np s l -> frag u l ->
+  SimB (Post u np s) (eat_surrogate_pair_escape s) (sp_surrogate_pair l).
 Proof.
   intros Ha Hf. unfold frag in Hf. unfold_hyps. destruct_states. cleanup.
   unfold eat_surrogate_pair_escape, sp_surrogate_pair.
@@ -726,8 +748,8 @@ Proof.
   unfold pos. cbn [rd idx]. f_equal. destruct (fst (span_hex l)) as [|d0 ds0]; cbn [length is_nil negb]; [rewrite Nat.add_0_r, Nat.eqb_refl; reflexivity|].
   destruct (Nat.eqb_spec (i + S (length ds0)) i); [lia|reflexivity].
 Qed.
-Lemma eat_codepoint_escape_sim u s l : at_ u s l -> frag u l ->
-  SimR (Post u s) (eat_codepoint_escape s) (sp_codepoint l).
+Lemma eat_codepoint_escape_sim u np s l : at_ u np s l -> frag u l ->
+  SimR (Post u np s) (eat_codepoint_escape s) (sp_codepoint l).
 Proof.
   intros Ha Hf. unfold frag in Hf. unfold_hyps. destruct_states. cleanup.
   unfold eat_codepoint_escape, sp_codepoint, bind. prim.
@@ -749,49 +771,66 @@ Proof.
 Qed.
 #[local] Hint Resolve eat_codepoint_escape_sim : sim.
 
-Lemma eat_hex_escape_sequence_sim u s l : at_ u s l -> efrag u l ->
-  SimR (PostE u s) (eat_hex_escape_sequence s) (sp_hex_esc u l).
+Lemma eat_hex_escape_sequence_sim u np s l : at_ u np s l -> efrag u l ->
+  SimR (PostE u np s) (eat_hex_escape_sequence s) (sp_hex_esc u l).
 Proof. start eat_hex_escape_sequence. unfold sp_hex_esc. go. Qed.
 #[local] Hint Resolve eat_hex_escape_sequence_sim : sim.
-Lemma eat_unicode_escape_sim u s l : at_ u s l -> efrag u l ->
-  SimR (PostE u s) (eat_unicode_escape false s) (sp_unicode_esc u l).
+Lemma eat_unicode_escape_sim u np s l : at_ u np s l -> efrag u l ->
+  SimR (PostE u np s) (eat_unicode_escape false s) (sp_unicode_esc u l).
 Proof. start eat_unicode_escape. unfold sp_unicode_esc. go. Qed.
 #[local] Hint Resolve eat_unicode_escape_sim : sim.
 
 (* ---- AtomEscape: the validator is at the unit after the backslash ---- *)
-Lemma is_octal_digit c : is_octal c = true -> is_digit c = true.
-Proof. unfold is_octal, is_digit. intros H. apply andb_true_iff in H. destruct H as [H1 H2]. rewrite H1. apply N.leb_le in H2. apply N.leb_le. lia. Qed.
-Lemma nonzero_digit_spec c : nonzero_digit c = false -> is_digit c = true -> c = 48.
+Lemma efrag_cons u x r : efrag u (x :: r) -> allowed_after_backslash u x r = true /\ scan u false r = true.
+Proof. unfold efrag. cbn [scan]. intros H. apply andb_true_iff in H. exact H. Qed.
+Lemma nonzero_digit_test x : is_digit x && negb (x =? 48) = non_zero_digit x.
 Proof.
-  unfold nonzero_digit, is_digit. intros H1 H2. apply andb_true_iff in H2. destruct H2 as [H2 H3]. rewrite H3 in H1.
-  rewrite andb_true_r in H1. apply N.leb_le in H2. apply N.leb_gt in H1. lia.
-Qed.
-Lemma efrag_cons u x r : efrag u (x :: r) -> allowed_after_backslash u x r = true /\ scan u false r = true /\
-  nonzero_digit x = false /\ (is_digit x = false \/ x = 48) /\ (is_octal x = false \/ x = 48).
-Proof.
-  unfold efrag. cbn [scan]. intros H. apply andb_true_iff in H. destruct H as [H1 H2]. split; [exact H1|]. split; [exact H2|].
-  assert (Hx : nonzero_digit x = false).
-  { unfold allowed_after_backslash in H1. apply andb_true_iff in H1. destruct H1 as [H1 _]. apply negb_true_iff in H1. exact H1. }
-  split; [exact Hx|].
-  assert (Hd : is_digit x = false \/ x = 48).
-  { destruct (is_digit x) eqn:Ed; [right; apply nonzero_digit_spec; assumption|left; reflexivity]. }
-  split; [exact Hd|]. destruct Hd as [Hd|Hd]; [left|right; exact Hd].
-  destruct (is_octal x) eqn:Eo; [|reflexivity]. apply is_octal_digit in Eo. congruence.
+  unfold is_digit, non_zero_digit. destruct (N.leb_spec 48 x), (N.leb_spec x 57), (N.eqb_spec x 48), (N.leb_spec 49 x);
+    cbn [andb negb]; try reflexivity; lia.
 Qed.
 
-(* consume_backreference finds no DecimalEscape *)
-Lemma consume_backreference_none u s l : at_ u s l -> efrag u l ->
-  SimR (PostE u s) (consume_backreference s) (SOk false l).
+(* consume_backreference: DecimalEscape *)
+Lemma consume_backreference_sim u np s l : at_ u np s l -> efrag u l ->
+  SimR (PostE u np s) (consume_backreference s) (sp_backref u np l).
 Proof.
-  intros Ha He. unfold_hyps. destruct_states. cleanup.
+  intros Ha He. destruct l as [|x r]; [exfalso; unfold efrag in He; discriminate He|].
+  destruct (efrag_cons _ _ _ He) as [Hal Hr]. unfold_hyps. destruct_states. cleanup.
   unfold consume_backreference, eat_decimal_escape, bind. prim. simp.
-  destruct l as [|x r]; [finish|].
-  destruct (efrag_cons _ _ _ He) as [_ [_ [Hx [Hd _]]]]. proj.
-  assert (E : is_digit x && negb (x =? 48) = false).
-  { destruct Hd as [Hd|Hd]; [rewrite Hd; reflexivity|subst x; reflexivity]. }
-  rewrite E. finish.
+  rewrite nonzero_digit_test. cbn [sp_backref]. destruct (non_zero_digit x) eqn:Ex; [|finish].
+  pose proof (non_zero_digit_digit x Ex) as Hdig.
+  rewrite (digits_loop_dec _ _ _ _ _ _ _ _ _ _ _ _ units (x :: r)) by (first [assumption | cbn [length]; lia]).
+  rewrite (span_digits_cons x r Hdig). cbn [fst].
+  change 0%Z with (Z.min i64max (Z.of_N 0)). rewrite sat_fold. fold (dec_value (x :: fst (span_digits r))).
+  unfold allowed_after_backslash in Hal. rewrite Ex in Hal. apply andb_true_iff in Hal. destruct Hal as [Hsmall _].
+  rewrite (min_small _ Hsmall). proj.
+  replace (Z.of_N (dec_value (x :: fst (span_digits r))) <=? Z.of_N np)%Z with (dec_value (x :: fst (span_digits r)) <=? np).
+  2:{ destruct (N.leb_spec (dec_value (x :: fst (span_digits r))) np); symmetry; [apply Z.leb_le|apply Z.leb_gt]; lia. }
+  destruct (span_digits_spec r) as [E1 [F1 _]].
+  assert (H2 : skipn (idx + length (x :: fst (span_digits r))) units = snd (span_digits r)).
+  { apply skipn_app_drop. rewrite H. cbn [app]. f_equal. exact E1. }
+  assert (Hr1 : scan u false (snd (span_digits r)) = true).
+  { apply (scan_drop u (fst (span_digits r))); [apply digit_not_bs; exact F1|rewrite <- E1; exact Hr]. }
+  destruct (dec_value (x :: fst (span_digits r)) <=? np); [finish|]. destruct u; cbn [orb]; finish.
 Qed.
-#[local] Hint Resolve consume_backreference_none : sim.
+#[local] Hint Resolve consume_backreference_sim : sim.
+
+(* LegacyOctalEscapeSequence *)
+Lemma zero_to_three_digval a : is_octal a = true -> zero_to_three a = (digval a <=? 3)%Z.
+Proof.
+  unfold is_octal, zero_to_three, digval. intros H. apply andb_true_iff in H. destruct H as [H1 H2]. rewrite H1. cbn [andb].
+  apply N.leb_le in H1, H2. destruct (N.leb_spec a 51); symmetry; [apply Z.leb_le|apply Z.leb_gt]; lia.
+Qed.
+Lemma eat_legacy_octal_sim u np s l : at_ u np s l -> efrag u l ->
+  SimB (PostE u np s) (eat_legacy_octal s) (sp_legacy_octal l).
+Proof.
+  intros Ha He. destruct l as [|a r1]; [exfalso; unfold efrag in He; discriminate He|].
+  destruct (efrag_cons _ _ _ He) as [Hal Hr].
+  norm. unfold eat_legacy_octal, eat_octal_digit. prim. unfold sp_legacy_octal. change octal_digit with is_octal.
+  destruct (is_octal a) eqn:Ea.
+  - rewrite (zero_to_three_digval a Ea). go.
+  - go.
+Qed.
+#[local] Hint Resolve eat_legacy_octal_sim : sim.
 
 Ltac split_special x :=
   let Ex := fresh "Ex" in
@@ -799,36 +838,44 @@ Ltac split_special x :=
                                94; 36; 92; 46; 42; 43; 63; 40; 41; 91; 93; 123; 125; 124; 47]) eqn:Ex;
   [ split_mem; cbn [N.eqb Pos.eqb] in *
   | cbn [existsb] in Ex; repeat (apply orb_false_iff in Ex; let E := fresh "Ne" in destruct Ex as [E Ex]); clear Ex ].
-Lemma cce_sim u s l : at_ u s l -> efrag u l ->
-  SimR (PostE u s) (consume_character_class_escape s) (sp_cce l).
+Lemma cce_sim u np s l : at_ u np s l -> efrag u l ->
+  SimR (PostE u np s) (consume_character_class_escape s) (sp_cce l).
 Proof.
   intros Ha He. destruct l as [|x r].
   { exfalso. unfold efrag in He. discriminate He. }
-  destruct (efrag_cons _ _ _ He) as [Hal [Hr _]].
+  destruct (efrag_cons _ _ _ He) as [Hal Hr].
   norm. unfold consume_character_class_escape, bind. prim. unfold sp_cce, character_class_escape. cbn [existsb].
   split_special x; go.
 Qed.
 #[local] Hint Resolve cce_sim : sim.
 
-Lemma ce_sim u s l : at_ u s l -> efrag u l ->
-  SimR (PostE u s) (consume_character_escape s) (sp_ce u l).
+Ltac split_special_digits x :=
+  let Ex := fresh "Ex" in
+  destruct (existsb (N.eqb x) [100; 68; 115; 83; 119; 87; 112; 80; 102; 110; 114; 116; 118; 99; 48; 120; 117; 107;
+                               94; 36; 92; 46; 42; 43; 63; 40; 41; 91; 93; 123; 125; 124; 47;
+                               49; 50; 51; 52; 53; 54; 55; 56; 57]) eqn:Ex;
+  [ split_mem; cbn [N.eqb Pos.eqb] in *
+  | cbn [existsb] in Ex; repeat (apply orb_false_iff in Ex; let E := fresh "Ne" in destruct Ex as [E Ex]); clear Ex ].
+Lemma ce_sim u np s l : at_ u np s l -> efrag u l ->
+  SimR (PostE u np s) (consume_character_escape s) (sp_ce u l).
 Proof.
   intros Ha He. destruct l as [|x r].
   { exfalso. unfold efrag in He. discriminate He. }
-  destruct (efrag_cons _ _ _ He) as [Hal [Hr [Hx [Hd Ho]]]].
-  norm. unfold consume_character_escape, eat_control_escape, eat_c_control_letter, eat_control_letter, eat_zero, eat_legacy_octal, eat_octal_digit, eat_identity_escape, valid_identity_escape, bind. prim.
+  destruct (efrag_cons _ _ _ He) as [Hal Hr].
+  norm. unfold consume_character_escape, eat_control_escape, eat_c_control_letter, eat_control_letter, eat_zero, eat_identity_escape, valid_identity_escape, bind. prim.
   unfold sp_ce, control_escape, identity_escape, starts_letter, starts_digit. cbn [existsb].
   change decimal_digit with is_digit. change control_letter with is_alpha.
-  split_special x.
-  34: { assert (Hd' : is_digit x = false) by (destruct Hd as [Hd|Hd]; [exact Hd|subst x; discriminate]).
-        assert (Ho' : is_octal x = false) by (destruct Ho as [Ho|Ho]; [exact Ho|subst x; discriminate]).
-        clear Hd Ho. go. }
-  all: clear Hd Ho; go.
+  split_special_digits x.
+  43: { assert (Hd' : is_digit x = false).
+        { unfold is_digit. destruct (N.leb_spec 48 x); [|reflexivity]. destruct (N.leb_spec x 57); [|reflexivity]. exfalso.
+          repeat match goal with H : (x =? _) = false |- _ => apply N.eqb_neq in H end. lia. }
+        go. }
+  all: go.
 Qed.
 #[local] Hint Resolve ce_sim : sim.
 
-Lemma rs_atom_escape_sim u s l : at_ u s l -> frag u l ->
-  SimR (Post u s) (consume_reverse_solidus_atom_escape s) (sp_escape u l).
+Lemma rs_atom_escape_sim u np s l : at_ u np s l -> frag u l ->
+  SimR (Post u np s) (consume_reverse_solidus_atom_escape s) (sp_escape u np l).
 Proof.
   intros Ha Hf.
   destruct l as [|b l']; [|destruct (b =? 92) eqn:Eb; [apply N.eqb_eq in Eb; subst b|]].
@@ -838,23 +885,49 @@ Proof.
 Qed.
 #[local] Hint Resolve rs_atom_escape_sim : sim.
 
+(* count_capturing_parens on fragment inputs: the groups count_groups finds *)
+Lemma count_parens_groups u : forall l esc acc, scan u esc l = true ->
+  count_parens l false esc acc = (acc + count_groups l esc)%N.
+Proof.
+  induction l as [|c r IH]; intros esc acc Hs; [cbn; lia|].
+  cbn [count_parens count_groups]. destruct esc.
+  { cbn [scan] in Hs. apply andb_true_iff in Hs. apply IH. apply Hs. }
+  cbn [scan] in Hs. unfold c_bs, c_lb, c_rb, c_lp, g_backslash, g_lparen in *.
+  destruct (c =? 92)%N eqn:Ebs; [apply IH; exact Hs|].
+  apply andb_true_iff in Hs. destruct Hs as [Hs Hr]. apply andb_true_iff in Hs. destruct Hs as [Hp Hl].
+  destruct (c =? 91)%N eqn:Elb; [apply N.eqb_eq in Elb; subst c; discriminate Hp|].
+  destruct (c =? 93)%N eqn:Erb; [apply N.eqb_eq in Erb; subst c; cbn [N.eqb Pos.eqb andb]; apply IH; exact Hr|].
+  destruct (c =? 40)%N eqn:Elp; cbn [andb negb]; [|apply IH; exact Hr].
+  apply N.eqb_eq in Elp. subst c.
+  assert (E : (negb (is c_q (nth_error r 0)) ||
+               (is c_lt (nth_error r 1) && negb (is c_eq (nth_error r 2)) && negb (is c_bang (nth_error r 2))))%bool
+              = negb (starts_with g_question r)).
+  { unfold local_ok in Hl. cbn [N.eqb Pos.eqb g_lbrace g_lparen andb] in Hl. unfold is, c_q, c_lt, c_eq, c_bang, g_question.
+    destruct r as [|c1 [|c2 r']]; cbn [nth_error starts_with]; try (rewrite orb_false_r; reflexivity).
+    unfold g_question, g_less in Hl. destruct (c1 =? 63)%N eqn:E1; cbn [negb orb andb]; [|reflexivity].
+    destruct (c2 =? 60)%N eqn:E2; cbn [andb] in *; [|reflexivity].
+    destruct r' as [|x r'']; [discriminate Hl|]. cbn [nth_error]. unfold is_eq_or_bang, g_equals, g_bang in Hl.
+    apply orb_true_iff in Hl. destruct Hl as [Hl|Hl]; rewrite Hl; cbn [negb andb]; [reflexivity|apply andb_false_r]. }
+  rewrite E. destruct (starts_with g_question r); cbn [negb]; rewrite (IH false _ Hr); lia.
+Qed.
+
 Section KnotSim.
 Variable disj : vst -> R unit.
 Variable sdisj : list N -> SR unit.
 (* the recursive call (one nesting level deeper) simulates the recogniser's, in mode u *)
-Definition disj_sim (u : bool) : Prop :=
-  forall s l, at_ u s l -> frag u l -> SimR (Post u s) (disj s) (sdisj l).
-#[local] Hint Extern 1 (disj_sim _) => eassumption : sim.
+Definition disj_sim (u : bool) (np : N) : Prop :=
+  forall s l, at_ u np s l -> frag u l -> SimR (Post u np s) (disj s) (sdisj l).
+#[local] Hint Extern 1 (disj_sim _ _) => eassumption : sim.
 #[local] Hint Extern 2 (SimR _ (disj _) _) =>
-  match goal with H : disj_sim _ |- _ => eapply H end : sim.
+  match goal with H : disj_sim _ _ |- _ => eapply H end : sim.
 
-Lemma assertion_sim u s l : disj_sim u -> at_ u s l -> frag u l ->
-  SimR (fun a t l' => Post u s a t l' /\ (a = true -> laq t = quantifiable u l)) (assertion disj s) (sp_assertion sdisj l).
+Lemma assertion_sim u np s l : disj_sim u np -> at_ u np s l -> frag u l ->
+  SimR (fun a t l' => Post u np s a t l' /\ (a = true -> laq t = quantifiable u l)) (assertion disj s) (sp_assertion sdisj l).
 Proof. start assertion. unfold sp_assertion, sp_group_body, quantifiable, is_eq_or_bang, assertion_escape. go. Qed.
 #[local] Hint Resolve assertion_sim : sim.
 
-Lemma atom_sim s l : disj_sim true -> at_ true s l -> frag true l -> assertion_prefix l = false ->
-  SimR (Post true s) (atom disj s) (sp_atom true sdisj l).
+Lemma atom_sim np s l : disj_sim true np -> at_ true np s l -> frag true l -> assertion_prefix l = false ->
+  SimR (Post true np s) (atom disj s) (sp_atom true np sdisj l).
 Proof.
   start atom. unfold consume_character_class, uncapturing_group, capturing_group,
     consume_group_specifier, eat_group_name, bind. prim.
@@ -867,8 +940,8 @@ Proof.
   intros H. cbn [scan N.eqb Pos.eqb g_backslash]. rewrite H. unfold plain_char, local_ok.
   cbn [N.eqb Pos.eqb g_lbracket g_lbrace g_lparen andb negb]. destruct l as [|? [|? ?]]; reflexivity.
 Qed.
-Lemma extended_atom_sim s l : disj_sim false -> at_ false s l -> frag false l -> assertion_prefix l = false ->
-  SimR (Post false s) (extended_atom disj s) (sp_atom false sdisj l).
+Lemma extended_atom_sim np s l : disj_sim false np -> at_ false np s l -> frag false l -> assertion_prefix l = false ->
+  SimR (Post false np s) (extended_atom disj s) (sp_atom false np sdisj l).
 Proof.
   start extended_atom. unfold consume_character_class, uncapturing_group, capturing_group,
     consume_group_specifier, eat_group_name, bind. prim.
@@ -877,37 +950,44 @@ Proof.
 Qed.
 #[local] Hint Resolve extended_atom_sim : sim.
 
-Lemma term_sim u s l : disj_sim u -> at_ u s l -> frag u l -> SimR (Post u s) (term disj s) (sp_term u sdisj l).
+Lemma term_sim u np s l : disj_sim u np -> at_ u np s l -> frag u l -> SimR (Post u np s) (term disj s) (sp_term u np sdisj l).
 Proof. start term. unfold sp_term, sp_quantified. go. Qed.
 #[local] Hint Resolve term_sim : sim.
 
-Lemma alternative_sim u (Hd : disj_sim u) g : forall s l, at_ u s l -> frag u l ->
-  SimR (Post u s) (alternative disj g s) (sp_alternative u sdisj g l).
+Lemma alternative_sim u np (Hd : disj_sim u np) g : forall s l, at_ u np s l -> frag u l ->
+  SimR (Post u np s) (alternative disj g s) (sp_alternative u np sdisj g l).
 Proof. induction g as [|g IH]; intros s l Ha Hf; [exact I|]. norm. cbn [alternative sp_alternative]. unfold bind. prim. go. Qed.
 #[local] Hint Resolve alternative_sim : sim.
 
-Lemma bars_sim u (Hd : disj_sim u) g : forall s l, at_ u s l -> frag u l ->
-  SimR (Post u s) (bars disj g s) (sp_bars u sdisj g l).
+Lemma bars_sim u np (Hd : disj_sim u np) g : forall s l, at_ u np s l -> frag u l ->
+  SimR (Post u np s) (bars disj g s) (sp_bars u np sdisj g l).
 Proof. induction g as [|g IH]; intros s l Ha Hf; [exact I|]. norm. cbn [bars sp_bars]. unfold bind. prim. go. Qed.
 #[local] Hint Resolve bars_sim : sim.
 
-Lemma disjunction_body_sim u s l : disj_sim u -> at_ u s l -> frag u l ->
-  SimR (Post u s) (disjunction_body disj s) (sp_disjunction_body u sdisj l).
+Lemma disjunction_body_sim u np s l : disj_sim u np -> at_ u np s l -> frag u l ->
+  SimR (Post u np s) (disjunction_body disj s) (sp_disjunction_body u np sdisj l).
 Proof. start disjunction_body. unfold sp_disjunction_body, starts_with. go. Qed.
 End KnotSim.
 
-Lemma disjunction_sim u f : forall s l, at_ u s l -> frag u l ->
-  SimR (Post u s) (disjunction f s) (sp_disjunction u f l).
+Lemma disjunction_sim u np f : forall s l, at_ u np s l -> frag u l ->
+  SimR (Post u np s) (disjunction f s) (sp_disjunction u np f l).
 Proof.
   induction f as [|f IH]; intros s l Ha Hf; [exact I|]. cbn [disjunction sp_disjunction].
   apply disjunction_body_sim; [exact IH|assumption|assumption].
 Qed.
 #[local] Hint Resolve disjunction_sim : sim.
 
-Lemma consume_pattern_sim u s l : at_ u s l -> frag u l ->
+Lemma consume_pattern_sim u s l : skipn (pos s) (units (rd s)) = l -> strict s = u -> uflag s = u -> nflag s = u -> frag u l ->
   SimR (fun _ t l' => l' = [] /\ gnames t = []) (consume_pattern s) (sp_pattern u l).
 Proof.
-  intros Ha Hf. norm. unfold consume_pattern, bind, pattern_fuel, count_capturing_parens. prim. unfold sp_pattern. go.
+  intros Hl H1 H2 H3 Hf. unfold consume_pattern, count_capturing_parens. rewrite Hl.
+  rewrite (count_parens_groups u l false 0 Hf). rewrite N.add_0_l.
+  set (np := count_groups l false).
+  set (s' := s <| ncap := np |> <| gnames := [] |> <| brnames := [] |>).
+  assert (Ha : at_ u np s' l) by (destruct s as [[us i] ? ? ? ? ? ? ? ? ? ? ? ? ?]; unfold pos in *; cbn in *; repeat split; assumption).
+  assert (Hg : gnames s' = []) by (destruct s as [[us i] ? ? ? ? ? ? ? ? ? ? ? ? ?]; reflexivity).
+  assert (Hb : brnames s' = []) by (destruct s as [[us i] ? ? ? ? ? ? ? ? ? ? ? ? ?]; reflexivity).
+  clearbody s'. clear Hl H1 H2 H3 s. norm. unfold bind, pattern_fuel. prim. unfold sp_pattern. fold np. go.
 Qed.
 
 Definition outcome_agrees {A B} (r : R A) (x : SR B) : Prop :=
@@ -920,8 +1000,9 @@ Theorem validate_pattern_sim st src u : scan u false (visible_units src u) = tru
 Proof.
   intros Hf. unfold validate_pattern, bind.
   set (s := st <| strict := u |> <| uflag := u |> <| nflag := u |> <| rd := mkreader (visible_units src u) 0 |>).
-  assert (Ha : at_ u s (visible_units src u)) by (destruct st; repeat split).
-  pose proof (consume_pattern_sim u s _ Ha Hf) as L.
+  pose proof (consume_pattern_sim u s (visible_units src u)) as L.
+  specialize (L ltac:(destruct st; reflexivity) ltac:(destruct st; reflexivity) ltac:(destruct st; reflexivity)
+                ltac:(destruct st; reflexivity) Hf).
   destruct (consume_pattern s) as [a t|m t|p|]; destruct (sp_pattern u (visible_units src u)) as [a' l'| |]; cbn [SimR] in L;
     try contradiction; try exact I.
   destruct L as [_ [_ Hg]]. rewrite Hg. rewrite andb_false_r. exact I.
